@@ -253,7 +253,8 @@ class QuicSession:
             return False
         elif dcid in self.client_cids and dcid not in self.server_cids:
             return True
-        elif packet.ip_src == self.client_ip and packet.sport == self.client_port:
+        # both endpoints use this connection ID: only clients change their address (RFC 9000 9), the server's stays
+        elif packet.ip_dst == self.server_ip and packet.dport == self.server_port:
             return False
         else:
             return True
